@@ -80,6 +80,9 @@ pub struct RunSummary {
     /// final rendering of a clean session (only when the worker is asked to emit it)
     #[serde(default)]
     pub output: Option<String>,
+    /// questions for the value stage (only with `emit`)
+    #[serde(default)]
+    pub value_probes: Vec<exec::ValueProbe>,
 }
 
 pub const RUN_TIMEOUT_S: u64 = 10;
@@ -132,6 +135,7 @@ pub fn run_one_emit(seed: u64, focus: Focus, faults: bool, index: u64, emit: boo
         harness_error: out.harness_error.clone(),
         has_variant: desc.variant.is_some(),
         output: if emit && out.violations.is_empty() { out.final_output.clone() } else { None },
+        value_probes: if emit && out.violations.is_empty() { out.value_probes.clone() } else { Vec::new() },
         violations: out.violations,
         probes: out.probes,
         hung,
@@ -269,6 +273,7 @@ pub fn run_stage_emit(base_seed: u64, stage: &Stage, workers: usize, emit: bool)
                                 has_variant: desc.variant.is_some(),
                                 hung: true,
                                 output: None,
+                                value_probes: Vec::new(),
                             };
                             if clean {
                                 sum.violations.push(Violation {
@@ -397,6 +402,9 @@ pub fn replay(path: &str) -> i32 {
             return 2;
         }
     };
+    if r.engine == "sessim-value" {
+        return value_replay(&r);
+    }
     if r.engine == "sessim-rustc" {
         return rustc_replay(&r);
     }
@@ -645,6 +653,37 @@ pub fn check(property: &str, tier: &str, base_seed: u64, workers: usize, runs_ov
         }
     }
 
+    // ----- value stage (C06): the compiled output is RUN and its defaults compared -----
+    let mut value_modules = 0usize;
+    let mut value_wall = 0.0f64;
+    if property == "C06" && runs_override.map(|r| r >= 100).unwrap_or(true) {
+        let vstage = Stage { name: "values", focus: Focus::Defaults, faults: false, runs: if tier == "thorough" { 1200 } else { 120 }, stream: 43 };
+        let n = vstage.runs;
+        match value_stage(base_seed, &vstage, workers) {
+            Ok((found, n_mod, counts, wall)) => {
+                value_modules += n_mod;
+                value_wall += wall;
+                stages.push(vstage);
+                let si = stages.len() - 1;
+                for (k, c) in counts {
+                    *probes.entry(k).or_insert(0) += c;
+                }
+                for (seed, v) in found {
+                    if report::properties_of(&v).contains(&property) {
+                        rustc_observed.entry((v.invariant.clone(), v.key.clone())).or_insert(v.observed.clone());
+                        let e = groups.entry((v.invariant.clone(), v.key.clone())).or_insert((seed, si, 0));
+                        e.2 += 1;
+                    }
+                }
+                total_runs += n;
+            }
+            Err(e) => {
+                eprintln!("HARNESS: value stage: {e}");
+                return CheckResult { exit_code: 2 };
+            }
+        }
+    }
+
     // ----- triage of violation groups -----
     let mut exit_code = 0;
     let mut n_violations = 0u64;
@@ -663,16 +702,16 @@ pub fn check(property: &str, tier: &str, base_seed: u64, workers: usize, runs_ov
         }
         let stage = &stages[*si];
         let desc = gen::generate(*seed, stage.focus, stage.faults);
-        if inv == "I11" {
+        if inv == "I11" || inv == "I12" {
             // decided by rustc, not by the in-process oracles: no minimisation,
             // the replay regenerates the module and runs cargo check on it
             let rf = ReplayFile {
                 property: property.to_string(),
-                engine: "sessim-rustc".into(),
+                engine: if inv == "I12" { "sessim-value".into() } else { "sessim-rustc".into() },
                 invariant: inv.clone(),
                 finding_key: key.clone(),
                 observed: rustc_observed.get(&(inv.clone(), key.clone())).cloned().unwrap_or_default(),
-                expected: "the emitted module type-checks".into(),
+                expected: if inv == "I12" { "the realised default serialises to the schema's default".into() } else { "the emitted module type-checks".into() },
                 step: desc.ops.len(),
                 original_seed: *seed,
                 shrink_executions: 0,
@@ -818,6 +857,8 @@ pub fn check(property: &str, tier: &str, base_seed: u64, workers: usize, runs_ov
     ev.extra.insert("known_findings_matched".into(), json!(known_lines.len()));
     ev.extra.insert("rustc_checked_modules".into(), json!(rustc_modules));
     ev.extra.insert("rustc_stage_wall_s".into(), json!(rustc_wall));
+    ev.extra.insert("value_stage_modules_built_and_run".into(), json!(value_modules));
+    ev.extra.insert("value_stage_wall_s".into(), json!(value_wall));
     ev.extra.insert("components_real".into(), json!(["typify_impl::TypeSpace (all conversion, merging, cycle breaking, finalisation, rendering, introspection)", "schemars / serde_json parsing", "syn parse of the output", "std HashMap/HashSet with SipHash keyed by the simulator"]));
     ev.extra.insert("components_stub".into(), json!(["the client (the simulator plays the build script / progenitor)", "rustc: real `cargo check` only in the rustc stage of C01/C07 (rustc_checked_modules); the structural oracle stands in for it after every step"]));
     if let Err(e) = ev.write() {
@@ -1053,6 +1094,323 @@ pub fn rustc_stage(base_seed: u64, stage: &Stage, workers: usize) -> Result<(Vec
     }
     let _ = std::fs::remove_dir_all(&dir);
     Ok((found, n, t0.elapsed().as_secs_f64()))
+}
+
+/// `expected` (a schema default) is reproduced by `actual` (what the compiled
+/// code serialises) up to the filling of nested defaults: extra members inside
+/// objects are allowed, members serde skips (null, empty array, empty object)
+/// may be absent, numbers compare by value.
+pub fn covers(actual: Option<&Value>, expected: &Value) -> bool {
+    let Some(actual) = actual else {
+        return match expected {
+            Value::Null => true,
+            Value::Array(a) => a.is_empty(),
+            Value::Object(o) => o.is_empty(),
+            _ => false,
+        };
+    };
+    match (actual, expected) {
+        (Value::Number(a), Value::Number(b)) => a.as_f64() == b.as_f64(),
+        (Value::Array(a), Value::Array(b)) => {
+            if a.len() != b.len() {
+                return false;
+            }
+            if a.iter().zip(b.iter()).all(|(x, y)| covers(Some(x), y)) {
+                return true;
+            }
+            // sets serialise in their own order
+            let mut sa: Vec<String> = a.iter().map(|x| x.to_string()).collect();
+            let mut sb: Vec<String> = b.iter().map(|x| x.to_string()).collect();
+            sa.sort();
+            sb.sort();
+            sa == sb
+        }
+        (Value::Object(a), Value::Object(b)) => b.iter().all(|(k, v)| covers(a.get(k), v)),
+        (a, b) => a == b,
+    }
+}
+
+#[derive(Debug, Clone)]
+pub enum ProbeAnswer {
+    Ok(Value),
+    InputRejected(String),
+    Panic,
+    Missing,
+}
+
+/// Build one crate out of the given modules (generated output + probe
+/// functions), run it, and return the answer to every probe. Modules that do
+/// not compile are dropped (their errors belong to C01's rustc stage) and
+/// returned in the second component.
+pub fn run_value_crate(tag: &str, modules: &[(u64, String, Vec<exec::ValueProbe>)]) -> Result<(BTreeMap<(u64, usize), ProbeAnswer>, BTreeSet<u64>), String> {
+    let root = report::verif_root();
+    let template = root.join("sim/rustc-check");
+    let dir = root.join(format!(".work/value/{tag}-{}", std::process::id()));
+    let _ = std::fs::remove_dir_all(&dir);
+    std::fs::create_dir_all(dir.join("src")).map_err(|e| e.to_string())?;
+    for f in ["Cargo.toml", "Cargo.lock", "rust-toolchain.toml"] {
+        std::fs::copy(template.join(f), dir.join(f)).map_err(|e| format!("copy {f}: {e}"))?;
+    }
+    let mut dropped: BTreeSet<u64> = BTreeSet::new();
+    let mut answers: BTreeMap<(u64, usize), ProbeAnswer> = BTreeMap::new();
+    for attempt in 0..3 {
+        let mut main = String::from("#![allow(warnings)]\n");
+        let mut calls = String::new();
+        for (idx, out, probes) in modules {
+            if dropped.contains(idx) {
+                let _ = std::fs::remove_file(dir.join(format!("src/m{idx}.rs")));
+                let _ = std::fs::remove_file(dir.join(format!("src/p{idx}.rs")));
+                continue;
+            }
+            std::fs::write(dir.join(format!("src/m{idx}.rs")), out).map_err(|e| e.to_string())?;
+            let mut p = String::from("#![allow(warnings)]\nuse crate::m");
+            p.push_str(&format!("{idx} as m;\npub fn run() {{\n"));
+            for (k, pr) in probes.iter().enumerate() {
+                let ty = &pr.type_name;
+                match &pr.input {
+                    Some(input) => {
+                        let text = serde_json::to_string(input).unwrap();
+                        p.push_str(&format!(
+                            "    crate::emit({idx}, {k}, std::panic::catch_unwind(|| {{ let v: m::{ty} = serde_json::from_str(r####\"{text}\"####).map_err(|e| e.to_string())?; Ok(serde_json::to_string(&v).unwrap()) }}));\n"
+                        ));
+                    }
+                    None => {
+                        p.push_str(&format!(
+                            "    crate::emit({idx}, {k}, std::panic::catch_unwind(|| {{ let v: m::{ty} = Default::default(); Ok(serde_json::to_string(&v).unwrap()) }}));\n"
+                        ));
+                    }
+                }
+            }
+            p.push_str("}\n");
+            std::fs::write(dir.join(format!("src/p{idx}.rs")), p).map_err(|e| e.to_string())?;
+            main.push_str(&format!("mod m{idx};\nmod p{idx};\n"));
+            calls.push_str(&format!("    p{idx}::run();\n"));
+        }
+        main.push_str(
+            "pub fn emit(i: u64, k: usize, r: std::thread::Result<Result<String, String>>) {\n    match r {\n        Ok(Ok(s)) => println!(\"PROBE\\t{i}\\t{k}\\tok\\t{s}\"),\n        Ok(Err(e)) => println!(\"PROBE\\t{i}\\t{k}\\tde-err\\t{}\", e.replace('\\n', \" \")),\n        Err(_) => println!(\"PROBE\\t{i}\\t{k}\\tpanic\\t\"),\n    }\n}\nfn main() {\n    std::panic::set_hook(Box::new(|_| {}));\n",
+        );
+        main.push_str(&calls);
+        main.push_str("}\n");
+        std::fs::write(dir.join("src/main.rs"), main).map_err(|e| e.to_string())?;
+        let out = std::process::Command::new("cargo")
+            .args(["build", "--offline", "--message-format=json", "--quiet"])
+            .current_dir(&dir)
+            .env("CARGO_TARGET_DIR", root.join("target/valuecheck"))
+            .env("CARGO_NET_OFFLINE", "true")
+            .output()
+            .map_err(|e| format!("cargo build: {e}"))?;
+        let mut bad: BTreeSet<u64> = BTreeSet::new();
+        let mut unattributed: Vec<String> = Vec::new();
+        let mut exe: Option<String> = None;
+        for line in String::from_utf8_lossy(&out.stdout).lines() {
+            let Ok(m) = serde_json::from_str::<Value>(line) else { continue };
+            if m.get("reason") == Some(&json!("compiler-artifact")) {
+                if let Some(e) = m.get("executable").and_then(|e| e.as_str()) {
+                    exe = Some(e.to_string());
+                }
+                continue;
+            }
+            if m.get("reason") != Some(&json!("compiler-message")) || m["message"]["level"] != json!("error") {
+                continue;
+            }
+            let msg = &m["message"];
+            let file = msg["spans"].as_array().and_then(|a| a.first()).and_then(|s| s["file_name"].as_str()).unwrap_or("");
+            let idx: Option<u64> = file
+                .strip_prefix("src/m")
+                .or_else(|| file.strip_prefix("src/p"))
+                .and_then(|f| f.strip_suffix(".rs"))
+                .and_then(|f| f.parse().ok());
+            let text = msg["message"].as_str().unwrap_or("");
+            match idx {
+                Some(i) => {
+                    bad.insert(i);
+                }
+                None => {
+                    if !(text.contains("aborting due to") || text.contains("could not compile")) {
+                        unattributed.push(format!("{text} ({file})"));
+                    }
+                }
+            }
+        }
+        if out.status.success() {
+            let exe = exe.ok_or_else(|| "cargo build reported no executable".to_string())?;
+            let run = std::process::Command::new(&exe).output().map_err(|e| format!("run {exe}: {e}"))?;
+            for line in String::from_utf8_lossy(&run.stdout).lines() {
+                let f: Vec<&str> = line.splitn(5, '\t').collect();
+                if f.len() == 5 && f[0] == "PROBE" {
+                    let (Ok(i), Ok(k)) = (f[1].parse::<u64>(), f[2].parse::<usize>()) else { continue };
+                    let a = match f[3] {
+                        "ok" => match serde_json::from_str::<Value>(f[4]) {
+                            Ok(v) => ProbeAnswer::Ok(v),
+                            Err(e) => return Err(format!("probe output does not parse: {e}: {}", f[4])),
+                        },
+                        "de-err" => ProbeAnswer::InputRejected(f[4].to_string()),
+                        _ => ProbeAnswer::Panic,
+                    };
+                    answers.insert((i, k), a);
+                }
+            }
+            if !run.status.success() {
+                return Err(format!("the probe binary ended with {:?}", run.status));
+            }
+            let _ = std::fs::remove_dir_all(&dir);
+            return Ok((answers, dropped));
+        }
+        if bad.is_empty() {
+            return Err(format!(
+                "cargo build of the value crate failed without attributable errors: {}\n{}",
+                unattributed.join("; "),
+                String::from_utf8_lossy(&out.stderr).lines().take(20).collect::<Vec<_>>().join("\n")
+            ));
+        }
+        dropped.extend(bad);
+        let _ = attempt;
+    }
+    Err("the value crate still does not build after dropping the failing modules three times".into())
+}
+
+/// Judge the answers of one module's probes.
+pub fn judge_value_probes(idx: u64, probes: &[exec::ValueProbe], answers: &BTreeMap<(u64, usize), ProbeAnswer>, counts: &mut BTreeMap<String, u64>) -> Vec<Violation> {
+    let mut out = Vec::new();
+    for (k, pr) in probes.iter().enumerate() {
+        let a = answers.get(&(idx, k)).cloned().unwrap_or(ProbeAnswer::Missing);
+        match a {
+            ProbeAnswer::Missing => {
+                *counts.entry("value_stage.probe_without_answer".into()).or_insert(0) += 1;
+            }
+            ProbeAnswer::InputRejected(_) => {
+                *counts.entry("value_stage.minimal_instance_rejected_by_generated_type".into()).or_insert(0) += 1;
+            }
+            ProbeAnswer::Panic => {
+                for (member, d, class) in &pr.expect {
+                    out.push(Violation {
+                        invariant: "I12".into(),
+                        key: format!("default-panics-at-run-time|{class}"),
+                        step: 0,
+                        observed: format!("{} ({}): producing the default of {} panics in the compiled output (schema default {})", pr.type_name, pr.site, if member.is_empty() { "the type".to_string() } else { format!("member `{member}`") }, d),
+                        expected: "the realised default serialises to the schema's default".into(),
+                    });
+                }
+            }
+            ProbeAnswer::Ok(v) => {
+                *counts.entry(format!("value_stage.answered.{}", pr.kind)).or_insert(0) += 1;
+                for (member, d, class) in &pr.expect {
+                    let actual = if member.is_empty() { Some(&v) } else { v.get(member) };
+                    if covers(actual, d) {
+                        *counts.entry("value_stage.default_reproduced".into()).or_insert(0) += 1;
+                    } else {
+                        out.push(Violation {
+                            invariant: "I12".into(),
+                            key: format!("default-value-differs:{}|{class}", pr.kind),
+                            step: 0,
+                            observed: format!(
+                                "{} ({}): {} is {} in the compiled output, the schema's default is {}",
+                                pr.type_name,
+                                pr.site,
+                                if member.is_empty() { "<T as Default>::default()".to_string() } else { format!("member `{member}` of a value deserialised without it") },
+                                actual.map(|a| a.to_string()).unwrap_or_else(|| "absent".into()),
+                                d
+                            ),
+                            expected: "the realised default serialises to the schema's default (up to filling of nested defaults)".into(),
+                        });
+                    }
+                }
+            }
+        }
+    }
+    out
+}
+
+/// Only probes whose type the module really defines (replaced types are not
+/// generated) and, for `type-default`, whose Default impl it really has.
+pub fn applicable_probes(output: &str, probes: &[exec::ValueProbe]) -> Vec<exec::ValueProbe> {
+    probes
+        .iter()
+        .filter(|p| {
+            let n = &p.type_name;
+            let defined = output.contains(&format!("pub struct {n} ")) || output.contains(&format!("pub enum {n} ")) || output.contains(&format!("pub struct {n}("));
+            let has_default = output.contains(&format!("Default for {n} {{"));
+            defined && n.chars().all(|c| c.is_ascii_alphanumeric() || c == '_') && (p.kind != "type-default" || has_default)
+        })
+        .cloned()
+        .collect()
+}
+
+/// C06 value stage: compile the final outputs of clean default-carrying
+/// sessions together with their probes, RUN them, compare realised defaults
+/// with the schemas' defaults.
+pub fn value_stage(base_seed: u64, stage: &Stage, workers: usize) -> Result<(Vec<(u64, Violation)>, usize, BTreeMap<String, u64>, f64), String> {
+    let t0 = Instant::now();
+    let res = run_stage_emit(base_seed, stage, workers, true)?;
+    let mut modules: Vec<(u64, String, Vec<exec::ValueProbe>)> = Vec::new();
+    let mut seeds: BTreeMap<u64, u64> = BTreeMap::new();
+    let mut counts: BTreeMap<String, u64> = BTreeMap::new();
+    for s in &res {
+        if let Some(out) = &s.output {
+            if shadows_std_prelude(out) {
+                continue;
+            }
+            let probes = applicable_probes(out, &s.value_probes);
+            *counts.entry("value_stage.probes_not_applicable".into()).or_insert(0) += (s.value_probes.len() - probes.len()) as u64;
+            if probes.is_empty() {
+                continue;
+            }
+            seeds.insert(s.index, s.seed);
+            modules.push((s.index, out.clone(), probes));
+        }
+    }
+    let n = modules.len();
+    if n == 0 {
+        return Ok((Vec::new(), 0, counts, t0.elapsed().as_secs_f64()));
+    }
+    let (answers, dropped) = run_value_crate(stage.name, &modules)?;
+    *counts.entry("value_stage.modules_dropped_rustc_error".into()).or_insert(0) += dropped.len() as u64;
+    let mut found = Vec::new();
+    for (idx, _out, probes) in &modules {
+        if dropped.contains(idx) {
+            continue;
+        }
+        for v in judge_value_probes(*idx, probes, &answers, &mut counts) {
+            found.push((seeds[idx], v));
+        }
+    }
+    Ok((found, n, counts, t0.elapsed().as_secs_f64()))
+}
+
+/// Replay of a value-stage finding: the session again, one module, built and run.
+pub fn value_replay(r: &ReplayFile) -> i32 {
+    let out = exec::execute(&r.run);
+    let Some(text) = out.final_output.clone() else {
+        println!("NOT-REPRODUCED (the session is not clean any more)");
+        return 0;
+    };
+    let probes = applicable_probes(&text, &out.value_probes);
+    let modules = vec![(0u64, text, probes.clone())];
+    match run_value_crate("replay", &modules) {
+        Ok((answers, dropped)) => {
+            if !dropped.is_empty() {
+                println!("NOT-REPRODUCED (the module does not compile; see the rustc stage of C01)");
+                return 0;
+            }
+            let mut counts = BTreeMap::new();
+            let vs = judge_value_probes(0, &probes, &answers, &mut counts);
+            for v in &vs {
+                println!("  {} {} : {}", v.invariant, v.key, v.observed);
+            }
+            if vs.iter().any(|v| v.invariant == r.invariant && v.key == r.finding_key) {
+                println!("REPRODUCED {} {}", r.invariant, r.finding_key);
+                println!("VIOLATION property={} replay=<this file>", r.property);
+                1
+            } else {
+                println!("NOT-REPRODUCED {} {}", r.invariant, r.finding_key);
+                0
+            }
+        }
+        Err(e) => {
+            eprintln!("HARNESS: value replay: {e}");
+            2
+        }
+    }
 }
 
 /// Does the module define an item whose name is a std prelude type/trait?
